@@ -21,6 +21,12 @@ CASTS = {'CStyleCastExpr', 'CXXStaticCastExpr', 'CXXFunctionalCastExpr', 'CXXRei
          'CXXConstCastExpr', 'CXXDynamicCastExpr'}
 
 
+def instantiate_unit():
+    """(path, flags) of the explicit-instantiation TU for header-only templates"""
+    return (os.path.join(VERIF, 'engine', 'instantiate.cc'),
+            ['-std=gnu++11', '-DNDEBUG', '-DMODULE_ID="verif"', '-I' + REPO + '/modules', '-I' + REPO + '/3rd-party'])
+
+
 class AnalysisBroken(Exception):
     """An anchor entity vanished / a TU failed to parse / a rule lost its instances."""
 
